@@ -93,6 +93,64 @@ func (e *Engine) verifyLemma(lem *Lemma, props []string) *fnResult {
 		c.declare(n, c.sorts.sortOf(ty))
 		bind[p.Name] = sv{n, ty}
 	}
+	if len(lem.Enum) > 0 {
+		// exhaustive enumeration of finitely many parameter values (complete, not a sample); the
+		// declared ranges must cover the lemma's preconditions, which is an obligation of its own
+		var rangeOK []string
+		for _, ev := range lem.Enum {
+			v, ok := bind[ev.Name]
+			if !ok {
+				res.attachErr = "unknown enumerated parameter " + ev.Name
+				return res
+			}
+			rangeOK = append(rangeOK, le(intLit(int64(ev.Lo)), v.t), le(v.t, intLit(int64(ev.Hi))))
+		}
+		req0, _, _, _, err := c.lemmaParts(lem, bind)
+		if err != nil {
+			res.attachErr = err.Error()
+			return res
+		}
+		c.oblige("lemma-enum-covers", props, and(req0...), and(rangeOK...), 0, nil, "the enumerated ranges cover the lemma's preconditions")
+		var insts []string
+		var rec func(i int, b map[string]sv)
+		rec = func(i int, b map[string]sv) {
+			if err != nil {
+				return
+			}
+			if i == len(lem.Enum) {
+				rq, en, _, _, e2 := c.lemmaParts(lem, b)
+				if e2 != nil {
+					err = e2
+					return
+				}
+				insts = append(insts, implies(and(rq...), and(en...)))
+				return
+			}
+			ev := lem.Enum[i]
+			for x := ev.Lo; x <= ev.Hi; x++ {
+				nb := map[string]sv{}
+				for k, v := range b {
+					nb[k] = v
+				}
+				nb[ev.Name] = sv{intLit(int64(x)), bind[ev.Name].ty}
+				rec(i+1, nb)
+			}
+		}
+		rec(0, bind)
+		if err != nil {
+			res.attachErr = err.Error()
+			return res
+		}
+		// one obligation per 64 instances keeps each query small
+		for i := 0; i < len(insts); i += 2048 {
+			j := min(i+2048, len(insts))
+			o := c.obligeRaw("lemma-enum", props, and(insts[i:j]...), 0, nil, fmt.Sprintf("lemma %s: instances %d..%d of %d (exhaustive)", lem.Name, i, j-1, len(insts)))
+			_ = o
+		}
+		c.finalize()
+		res.obligs = c.obligs
+		return res
+	}
 	req, ens, ensCl, dec, err := c.lemmaParts(lem, bind)
 	if err != nil {
 		res.attachErr = err.Error()
